@@ -98,6 +98,8 @@ def run(rep, tier, seed, model_ok=True, effort=1):
     pats = coherent_patterns()
     if tier == "quick":
         spans = [(dt.date(2018, 12, 20), 30), (dt.date(2020, 2, 20), 20), (dt.date(2023, 12, 25), 380)]
+        # every turn of the year 2001..2098 (all seven weekdays of January 1st, leap and common years): week and ISO-year parts move here
+        spans += [(dt.date(y, 12, 22), 20) for y in range(2001, 2099)]
     else:
         spans = [(dt.date(2001, 1, 1), 36158)]
     for pat, two_digit in pats:
